@@ -60,6 +60,39 @@ def specs(draw, max_entities=3, allow_comp_pk=True, allow_inheritance=False, rel
     return {'entities': entities, 'rels': rels}
 
 
+@st.composite
+def hub_specs(draw, keys=True):
+    """Entity diagrams built for refused and half-done cascades: every relationship starts at the hub entity E0, at least
+    one of them makes E0.delete() cascade or unlink and at least one refuses the delete (Required reverse with
+    cascade_delete=False).  Pony processes collections first and to-one attributes second, both in declaration order, so
+    the position of the refusing relationship decides how much work is done before the refusal."""
+    n_child = draw(st.integers(1, 2))
+    entities = []
+    for i in range(1 + n_child):
+        pk = draw(st.sampled_from(['auto', 'int', 'int', 'str', 'comp'])) if keys else 'auto'
+        nsc = draw(st.integers(1, 2))
+        scalars = []
+        for j in range(nsc):
+            scalars.append({'name': 'a%d' % j, 'type': draw(st.sampled_from(['int', 'str'])), 'req': draw(st.booleans()),
+                            'unique': draw(st.sampled_from([False, False, True])) if keys else False})
+        entities.append({'name': 'E%d' % i, 'pk': pk, 'scalars': scalars, 'ckeys': []})
+    working = [('o2m', True, None), ('o2m', False, True), ('o2m', False, None), ('o2o', False, True), ('o2o', True, True),
+               ('m2m', False, None), ('o2o', False, None)]
+    refusing = [('o2m', True, False), ('o2o', True, False)]
+    n_work = draw(st.integers(1, 3))
+    rl = [draw(st.sampled_from(working)) for _ in range(n_work)]
+    if draw(st.integers(0, 4)):     # one program in five has no refusing relationship: the cascade runs to the end
+        rl.insert(draw(st.integers(0, len(rl))), draw(st.sampled_from(refusing)))
+    if draw(st.integers(0, 3)) == 0:
+        rl.insert(draw(st.integers(0, len(rl))), draw(st.sampled_from(refusing)))
+    rels = []
+    for k, (kind, b_req, cascade) in enumerate(rl):
+        b = draw(st.integers(1, n_child))
+        rels.append({'kind': kind, 'a': 'E0', 'b': 'E%d' % b, 'a_attr': 'r%da' % k, 'b_attr': 'r%db' % k,
+                     'b_req': b_req, 'cascade': cascade})
+    return {'entities': entities, 'rels': rels}
+
+
 def ends(spec):
     """normalised relationship ends: list of dicts
     {'rel': k, 'ent': name, 'attr': name, 'many': bool, 'req': bool, 'cascade': bool, 'other': index of the other end}"""
